@@ -441,7 +441,7 @@ def validate(enc, kspec, variant, ret_ty):
     vres = {"vectors": 0, "mismatches": [], "samples": []}
     nat = G["native"].get((kspec.name, variant), [])
     s = z3.Solver()
-    s.set("timeout", 20000)
+    s.set("timeout", 5000)
     for _, c in enc.defs:
         s.add(c)
     panic_any = z3.Or([ob.cond for ob in enc.obligations]) if enc.obligations else z3.BoolVal(False)
@@ -451,6 +451,10 @@ def validate(enc, kspec, variant, ret_ty):
             s.add(c == (z3.BoolVal(bool(val)) if z3.is_bool(c) else z3.IntVal(val)))
         r = s.check()
         vres["vectors"] += 1
+        if r == z3.unknown:
+            vres["undecided"] = vres.get("undecided", 0) + 1
+            s.pop()
+            continue
         if r != z3.sat:
             vres["mismatches"].append({"inputs": vec, "native": natout, "encoding": "solver said %s on concrete inputs" % r})
             s.pop()
@@ -758,6 +762,9 @@ def run_property(pid, spec_kernels, modules, tier, seed, timeout_s, scratch_keep
             if r["status"] == "error":
                 R["inconclusive"].append({"kernel": r["kernel"], "variant": r["variant"], "why": r["reason"]})
                 continue
+            if r["validation"].get("undecided", 0) * 4 > r["validation"]["vectors"]:
+                R["inconclusive"].append({"kernel": r["kernel"], "variant": r["variant"],
+                                          "why": "translator validation undecided on %d of %d vectors" % (r["validation"]["undecided"], r["validation"]["vectors"])})
             if r["validation"]["mismatches"]:
                 R["inconclusive"].append({"kernel": r["kernel"], "variant": r["variant"],
                                           "why": "translator validation mismatch", "first": r["validation"]["mismatches"][:3]})
